@@ -43,6 +43,7 @@ Expected(k) ==
       fresh == before = StartLevel(e.obj, k) IN
   CASE e.op = "new" -> [enabled |-> TRUE, exact |-> TRUE, lv |-> <<>>, out |-> "ok"]
     [] e.op = "new_bad" -> [enabled |-> TRUE, exact |-> TRUE, lv |-> <<>>, out |-> "error"]
+    [] e.op = "other" -> [enabled |-> TRUE, exact |-> TRUE, lv |-> <<>>, out |-> "ok"]
     [] e.op = "resolve" -> [enabled |-> TRUE, exact |-> before < top, lv |-> IF before < top THEN <<before + 1>> ELSE <<>>, out |-> "ok"]
     [] e.op = "resolve_iter" -> [enabled |-> before < top, exact |-> fresh, lv |-> [i \in 1..(top - before) |-> before + i], out |-> "ok"]
     [] e.op = "resolve_all" -> [enabled |-> before < top, exact |-> fresh, lv |-> <<top>>, out |-> "ok"]
